@@ -200,7 +200,12 @@ func (c *concReader) seek(offset int64, whence int, limit int64) (int64, error) 
 	if limit > c.decompressedSize {
 		limit = c.decompressedSize
 	}
-	c.posLimit = limit
+	if c.posLimit != limit {
+		// The Manager and Workers were told the old limit (as part of their
+		// region of interest). They need to be told the new one.
+		c.posLimit = limit
+		c.seekResolved = false
+	}
 
 	return pos, nil
 }
